@@ -21,11 +21,12 @@ theorem C03_negative_zero_counterexample :
     int32OfRaw (some .onec) 8 0xFF = 0 ∧ (int32Raw (some .onec) 8 0).toNat = 0 ∧
     int32OfRaw (some .sm) 8 0x80 = 0 ∧ (int32Raw (some .sm) 8 0).toNat = 0 := by decide
 
-/-- **C03, flat composite tier (pure level of the model).** A description of positioned `A_INT32` / `A_UINT32` objects whose
+/-- **C03, flat composite tier (pure level of the model).** A description of positioned leaf objects (`A_INT32` / `A_UINT32` plain or BCD /
+    `A_FLOAT64` / `A_FLOAT32` / `A_BYTEFIELD` / `A_ASCIISTRING` / `A_UTF8STRING` / `A_UNICODE2STRING`: the kinds of `Proofs/FlatStep.lean`) whose
     claims are pairwise disjoint (`PairDisj`, a value-independent property of the description), a PDU in which all
     objects fit (`Fits`), whose every bit is claimed by some object (`ClaimedBy` — "all bits described by
-    value-carrying parameters") and whose raw patterns are canonical (`Canon` — no negative zero; every pattern of an
-    unsigned object is canonical): encoding the
+    value-carrying parameters") and whose raw patterns are canonical (`Canon` — no negative zero; every pattern of a plain
+    unsigned object is canonical; BCD: decimal digits only; float32 / text: the patterns the decoder accepts): encoding the
     values the decoder returns (`reenc` pairs every object with its decoded value) into a fresh message reproduces
     the PDU byte for byte, with no overlap warning. `encAll` is the pure form of the model's encoder
     (`Proofs/FlatMsg.lean`: `encodeMessage_flat`), `decVals` of its decoder. -/
@@ -37,7 +38,7 @@ theorem C03_reencode_flat (os : List Obj) (pdu : Bytes) (hok : ∀ o ∈ os, o.o
   reencode_flat os pdu hok hall hdisj hfit hcanon hdesc s0 hm hu hc ho
 
 /-- **C03, nested-structure tier, at the API level of the model.** A request/response built from VALUE and
-    CODED-CONST parameters over the five leaf kinds and arbitrarily nested structures, and a PDU such that
+    CODED-CONST parameters over the leaf kinds of `Proofs/FlatStep.lean` and arbitrarily nested structures, and a PDU such that
     * every leaf lies inside the PDU, every raw pattern read is canonical (no negative zero) and every CODED-CONST
       leaf carries its constant (`Trees.reads`),
     * the leaves — at the absolute positions of the flattening `Trees.flat` — are pairwise disjoint and together
@@ -93,6 +94,13 @@ theorem C03_no_warning_without_overlap (ovs : List (Obj × IVal)) (s : EncState)
     (encAll ovs s).warn = s.warn := encAll_nowarn ovs s hpd hfree
 
 example : canonRaw (some .onec) 8 0xFE := by simp [canonRaw]
+/-! canonical patterns of the text / BCD kinds: "é" in UTF-8 is, the overlong `c0 80` and the non-decimal `1a` are not -/
+example : (⟨"t", none, none, none, true, 16, .utf8⟩ : Obj).canon 0xc3a9 := by
+  refine ⟨by decide, ?_⟩; decide
+example : ¬ (⟨"t", none, none, none, true, 16, .utf8⟩ : Obj).canon 0xc080 := by
+  intro h; exact absurd h.2 (by decide)
+example : (⟨"n", none, none, some .bcdp, true, 8, .bcd⟩ : Obj).canon 0x42 ∧ ¬ (⟨"n", none, none, some .bcdp, true, 8, .bcd⟩ : Obj).canon 0x1a := by
+  refine ⟨⟨by decide, by decide⟩, fun h => absurd h.2 (by decide)⟩
 
 end OdxVerif.Codec
 
